@@ -1,0 +1,82 @@
+//go:build verif
+
+// Contracts for package phase2 (comment-only; compiled to nothing).
+
+package phase2
+
+// ---------------------------------------------------------------------------
+// longest-path layering (C11)
+
+// memoOK(h): every computed height (present and >= 0) satisfies the Bellman equations of "longest path to a sink":
+// at least 1; for every non-self-loop out-edge the successor is computed and h >= successor + delta; and tight
+//@ spec memoOK(h NodeIntMap) bool =
+//@   forall m *Node :: m != nil && has(h, m) && h[m] >= 0 ==>
+//@     h[m] >= 1
+//@     && (forall k int :: 0 <= k && k < len(m.Out) && m.Out[k].To != m ==> has(h, m.Out[k].To) && h[m.Out[k].To] >= 1 && h[m] >= h[m.Out[k].To] + m.Out[k].Delta)
+//@     && (h[m] == 1 || (exists k int :: 0 <= k && k < len(m.Out) && m.Out[k].To != m && h[m] == h[m.Out[k].To] + m.Out[k].Delta))
+
+// the key set of h is closed under successors
+//@ spec domClosed(h NodeIntMap) bool =
+//@   forall m *Node, k int :: m != nil && has(h, m) && 0 <= k && k < len(m.Out) ==> has(h, m.Out[k].To)
+
+//@ func followLongestPath
+//@   requires n != nil && height != nil && has(height, n) && domClosed(height) && outWF() && acyclicByTopo() && memoOK(height)
+//@   requires forall m *Node :: m != nil && has(height, m) && height[m] >= 0 ==> *nlayers >= height[m]
+//@   requires *nlayers >= 0 && (*nlayers == 0 || (exists m *Node :: m != nil && has(height, m) && height[m] == *nlayers))
+//@   decreases topo(n)
+//@   modifies map[*Node]int
+//@   ensures result == height[n] && result >= 1 && memoOK(height)
+//@   ensures forall m *Node :: has(height, m) <==> old(has(height, m))
+//@   ensures forall m *Node :: old(height[m]) >= 0 ==> height[m] == old(height[m])
+//@   ensures forall m *Node :: height[m] >= 0 || height[m] == old(height[m])
+//@   ensures forall m *Node :: height[m] != old(height[m]) ==> topo(m) <= topo(n)
+//@   ensures forall m *Node :: m != nil && has(height, m) && height[m] >= 0 ==> *nlayers >= height[m]
+//@   ensures *nlayers >= old(*nlayers) && (exists m *Node :: m != nil && has(height, m) && height[m] == *nlayers)
+//@   loop range(n.Out)#1 index i
+//@     invariant nodeh >= 1 && memoOK(height) && height[n] < 0
+//@     invariant forall m *Node :: has(height, m) <==> old(has(height, m))
+//@     invariant forall k int :: 0 <= k && k < i && n.Out[k].To != n ==> height[n.Out[k].To] >= 1 && nodeh >= height[n.Out[k].To] + n.Out[k].Delta
+//@     invariant nodeh == 1 || (exists k int :: 0 <= k && k < i && n.Out[k].To != n && nodeh == height[n.Out[k].To] + n.Out[k].Delta)
+//@     invariant forall m *Node :: old(height[m]) >= 0 ==> height[m] == old(height[m])
+//@     invariant forall m *Node :: height[m] >= 0 || height[m] == old(height[m])
+//@     invariant forall m *Node :: height[m] != old(height[m]) ==> topo(m) < topo(n)
+//@     invariant forall m *Node :: m != nil && has(height, m) && height[m] >= 0 ==> *nlayers >= height[m]
+//@     invariant *nlayers >= old(*nlayers) && (*nlayers == 0 || (exists m *Node :: m != nil && has(height, m) && height[m] == *nlayers))
+
+// nodesClosed(g): the node list has no nil entry and contains the target of every out-edge
+//@ spec nodesClosed(g *DGraph) bool =
+//@   (forall i int :: 0 <= i && i < len(g.Nodes) ==> g.Nodes[i] != nil)
+//@   && (forall i int, k int :: 0 <= i && i < len(g.Nodes) && 0 <= k && k < len(g.Nodes[i].Out) ==>
+//@        (exists j int :: 0 <= j && j < len(g.Nodes) && g.Nodes[j] == g.Nodes[i].Out[k].To))
+
+// The property in local (Bellman) form, over Node.Layer only: layers start at 0 and the top band is used, every
+// non-self-loop edge spans at least its Delta, and every node is in the bottom band (no node is lower) or has a tight
+// out-edge - so it sits exactly "longest path to a sink" bands above the bottom, and the number of bands is the
+// number of nodes on the longest path. (Uniqueness of the solution of these equations on a DAG is a textbook lemma.)
+//@ func execLongestPath
+//@   requires g != nil && len(g.Nodes) >= 1 && nodesClosed(g) && outWF() && acyclicByTopo()
+//@   modifies Node.Layer, map[*Node]int, Elems[*Node], alloc
+//@   ensures[nonneg] forall i int :: 0 <= i && i < len(g.Nodes) ==> 0 <= g.Nodes[i].Layer
+//@   ensures[feasible] forall i int, k int :: 0 <= i && i < len(g.Nodes) && 0 <= k && k < len(g.Nodes[i].Out) && g.Nodes[i].Out[k].To != g.Nodes[i] ==>
+//@          g.Nodes[i].Out[k].To.Layer >= g.Nodes[i].Layer + g.Nodes[i].Out[k].Delta
+//@   ensures[tight] forall i int :: 0 <= i && i < len(g.Nodes) ==>
+//@          (forall j int :: 0 <= j && j < len(g.Nodes) ==> g.Nodes[j].Layer <= g.Nodes[i].Layer)
+//@          || (exists k int :: 0 <= k && k < len(g.Nodes[i].Out) && g.Nodes[i].Out[k].To != g.Nodes[i]
+//@               && g.Nodes[i].Out[k].To.Layer == g.Nodes[i].Layer + g.Nodes[i].Out[k].Delta)
+//@   ensures[top] exists i int :: 0 <= i && i < len(g.Nodes) && g.Nodes[i].Layer == 0
+//@   loop range(g.Nodes)#1 index a
+//@     invariant height != nil
+//@     invariant forall k int :: 0 <= k && k < a ==> has(height, g.Nodes[k])
+//@     invariant forall m *Node :: has(height, m) ==> height[m] == 0 - 1 && (exists k int :: 0 <= k && k < a && g.Nodes[k] == m)
+//@   loop range(nodes)#1 index b
+//@     invariant memoOK(height)
+//@     invariant domClosed(height)
+//@     invariant nlayers >= 0
+//@     invariant forall m *Node :: has(height, m) <==> loopold(has(height, m))
+//@     invariant forall k int :: 0 <= k && k < b ==> height[nodes[k]] >= 1
+//@     invariant forall m *Node :: m != nil && has(height, m) && height[m] >= 0 ==> nlayers >= height[m]
+//@     invariant nlayers == 0 || (exists m *Node :: m != nil && has(height, m) && height[m] == nlayers)
+//@   loop range(g.Nodes)#2 index c
+//@     invariant forall j int :: 0 <= j && j < len(g.Nodes) ==> has(height, g.Nodes[j]) && height[g.Nodes[j]] >= 1
+//@     invariant nlayers >= 1
+//@     invariant forall k int :: 0 <= k && k < c ==> g.Nodes[k].Layer == nlayers - height[g.Nodes[k]]
